@@ -20,6 +20,7 @@
 -/
 import PrologVerif.Proofs.SharedView
 import PrologVerif.Proofs.SharedParam
+import PrologVerif.Generated.SharedState
 namespace PrologVerif.C14
 open PrologVerif PrologVerif.Shared
 
@@ -201,6 +202,140 @@ theorem C14_answers_unchanged (σ₀ : State) (h₀ : TableInv σ₀) (sched : S
     (fun a ha b hb => hinj a (hat a ha) b (hat b hb))
     (fun v hv w hw => hmono v (hvt v hv) w (hvt w hw))
   exact ⟨this.1, this.2.1, this.2.2.1⟩
+
+/-! ### regenerated facts: the assumptions of the model, re-read from the source on every run
+
+  `Generated/SharedState.lean` is rewritten by `extract/shared.go` (go/types) from the working tree
+  before every check; the theorems below compare it with what the model assumes.  They do not prove
+  behaviour — they make drift visible: dropping the mutex, reading the map on a lock-free fast
+  path, a non-atomic counter, a new package-level cache, or operators/flags/streams moving out of
+  `VM` into a package-level variable changes a list and the proof (`decide`) fails. -/
+
+open PrologVerif.Generated in
+/-- The atom table is touched by exactly the two functions the model has (`NewAtom`, `Atom.String`),
+    every write sits under `atomTable.Lock()` and every read under `Lock()` or `RLock()`, held from
+    before the access to the function's return (`defer Unlock`).  This is what makes `newAtom` and
+    `atomName` ATOMIC steps of `Model/Shared`. -/
+theorem C14_facts_atom_table_locked :
+    SharedState.atomTableAccesses =
+      [ ("atom.go", "NewAtom", "atoms", "read", "Lock"),       -- a, ok := atomTable.atoms[name]
+        ("atom.go", "NewAtom", "names", "read", "Lock"),       -- len(atomTable.names)
+        ("atom.go", "NewAtom", "atoms", "write", "Lock"),      -- atomTable.atoms[name] = a
+        ("atom.go", "NewAtom", "names", "write", "Lock"),      -- atomTable.names = append(…
+        ("atom.go", "NewAtom", "names", "read", "Lock"),       --   … atomTable.names, name)
+        ("atom.go", "Atom.String", "names", "read", "RLock") ] ∧
+    (∀ x ∈ SharedState.atomTableAccesses,
+      (x.2.2.2.1 = "write" → x.2.2.2.2 = "Lock") ∧
+      (x.2.2.2.1 = "read" → x.2.2.2.2 = "Lock" ∨ x.2.2.2.2 = "RLock")) := by
+  decide +kernel
+
+open PrologVerif.Generated in
+/-- `varCounter` is only ever changed through `atomic.AddInt64` (in `NewVariable`); the one plain
+    read, `lastVariable`, has no caller outside `_test.go` and the observation hook. -/
+theorem C14_facts_var_counter_atomic :
+    SharedState.varCounterAccesses =
+      [ ("variable.go", "lastVariable", "read"),
+        ("variable.go", "NewVariable", "atomic.AddInt64") ] ∧
+    SharedState.lastVariableCallers = [ ("verif_hooks.go", "VerifVarCounter") ] := by
+  decide +kernel
+
+/-- the package-level variables of `engine` and `prolog` (well-known `Atom` values aside), audited
+    by hand as never changing after initialisation -/
+def expectedPackageVars : List (String × String × String) := [
+  -- compiled regular expressions (safe for concurrent use, never reassigned)
+  ("engine", "quotedAtomEscapePattern", "*regexp.Regexp"),
+  -- THE shared mutable state #1 (Model/Shared.State.names/atoms)
+  ("engine", "atomTable", "struct{sync.RWMutex; names []string; atoms map[string]Atom}"),
+  -- lookup tables, filled by their composite literal (or init()) and only read afterwards
+  ("engine", "operatorSpecifiers", "map[Atom]operatorSpecifier"),
+  -- test seams: assigned in _test.go only
+  ("engine", "openFile", "func"),
+  ("engine", "osExit", "func"),
+  ("engine", "errNotCallable", "error"),
+  ("engine", "writeCompoundOps", "[...]func(w io.Writer, c Compound, opts *WriteOptions, env *Env, op *operator) error"),
+  ("engine", "errDCGNotApplicable", "error"),
+  ("engine", "dcgConstr", "map[procedureIndicator]func(args []Term, list Term, rest Term, env *Env) (Term, error)"),
+  -- immutable: the context variable and the root environment node
+  ("engine", "varContext", "Variable"),
+  ("engine", "rootEnv", "*Env"),
+  ("engine", "validTypeAtoms", "[...]Atom"),
+  ("engine", "validDomainAtoms", "[...]Atom"),
+  ("engine", "objectTypeAtoms", "[...]Atom"),
+  ("engine", "operationAtoms", "[...]Atom"),
+  ("engine", "permissionTypeAtoms", "[...]Atom"),
+  ("engine", "flagAtoms", "[...]Atom"),
+  ("engine", "resourceAtoms", "[...]Atom"),
+  ("engine", "exceptionalValueAtoms", "[...]Atom"),
+  ("engine", "soloTokenKinds", "[...]tokenKind"),
+  ("engine", "errOutOfMemory", "error"),
+  ("engine", "termSize", "int64"),
+  ("engine", "memFree", "func"),
+  ("engine", "maxInt", "Integer"),
+  ("engine", "minInt", "Integer"),
+  ("engine", "constants", "map[Atom]Number"),
+  ("engine", "unaryFunctors", "map[Atom]func(Number) (Number, error)"),
+  ("engine", "binaryFunctors", "map[Atom]func(Number, Number) (Number, error)"),
+  ("engine", "errExpectation", "error"),
+  ("engine", "errNoOp", "error"),
+  ("engine", "errNotANumber", "error"),
+  ("engine", "errPlaceholder", "error"),
+  ("engine", "quotedIdentEscapePattern", "*regexp.Regexp"),
+  ("engine", "doubleQuotedEscapePattern", "*regexp.Regexp"),
+  -- shared leaf promises (no `delayed`, so `Force` never writes to them) and the cut sentinel
+  ("engine", "truePromise", "*Promise"),
+  ("engine", "falsePromise", "*Promise"),
+  ("engine", "dummyCutParent", "Promise"),
+  ("engine", "errWrongIOMode", "error"),
+  ("engine", "errWrongStreamType", "error"),
+  ("engine", "errPastEndOfStream", "error"),
+  ("engine", "errReposition", "error"),
+  -- read-only write options (passed by pointer; the `with…` methods copy)
+  ("engine", "defaultWriteOptions", "WriteOptions"),
+  -- THE shared mutable state #2 (Model/Shared.State.counter)
+  ("engine", "varCounter", "int64"),
+  ("prolog", "bootstrap", "string"),
+  ("prolog", "ErrNoSolutions", "error"),
+  ("prolog", "ErrClosed", "error"),
+  ("prolog", "errConversion", "error"),
+  ("prolog", "atomEmptyList", "engine.Atom") ]
+
+open PrologVerif.Generated in
+/-- No package-level variable of `engine` or `prolog` other than the atom table and the variable
+    counter is assigned, incremented or mutated through a pointer-receiver method outside `init()`
+    and its declaration; the only addresses taken are of the read-only `defaultWriteOptions` and of
+    the `dummyCutParent` sentinel.  The set of package-level variables is the audited one, every
+    well-known `Atom` variable is a `NewAtom(<literal>)` value, and operators, flags, character
+    conversions, streams, current input/output and the database are fields of `VM`. -/
+theorem C14_facts_no_other_shared_state :
+    SharedState.packageVarWrites =
+      [ ("engine.atomTable", "atom.go", "NewAtom", "ptrmethod:Lock"),
+        ("engine.atomTable", "atom.go", "NewAtom", "ptrmethod:Unlock"),
+        ("engine.atomTable", "atom.go", "NewAtom", "assign"),
+        ("engine.atomTable", "atom.go", "NewAtom", "assign"),
+        ("engine.atomTable", "atom.go", "Atom.String", "ptrmethod:RLock"),
+        ("engine.atomTable", "atom.go", "Atom.String", "ptrmethod:RUnlock"),
+        ("engine.defaultWriteOptions", "builtin.go", "numberCharsWrite", "addr"),
+        ("engine.defaultWriteOptions", "builtin.go", "numberCodesWrite", "addr"),
+        ("engine.defaultWriteOptions", "exception.go", "Exception.Error", "addr"),
+        ("engine.dummyCutParent", "promise.go", "cut", "addr"),
+        ("engine.varCounter", "variable.go", "NewVariable", "atomic.AddInt64") ] ∧
+    SharedState.packageVars = expectedPackageVars ∧
+    SharedState.atomVarsOddInit = [] ∧
+    SharedState.vmFields =
+      [ ("Unknown", "func"),
+        ("procedures", "map[procedureIndicator]procedure"),
+        ("unknown", "unknownAction"),
+        ("FS", "fs.FS"),
+        ("loaded", "map[string]struct{}"),
+        ("operators", "operators"),
+        ("charConversions", "map[rune]rune"),
+        ("charConvEnabled", "bool"),
+        ("doubleQuotes", "doubleQuotes"),
+        ("streams", "streams"),
+        ("input", "*Stream"),
+        ("output", "*Stream"),
+        ("debug", "bool") ] := by
+  decide +kernel
 
 /-! ### the theorems rest on the atomicity of NewAtom (the mutex) -/
 
